@@ -1126,6 +1126,38 @@ theorem every_remotable_actor_is_advertised_by_the_sender (ops : List SenderAdve
     exact h
   exact ⟨h1, ((proxies_mirror_control_stream s.wire i).1).trans h1⟩
 
+/-- (at most twice, at most once outside the race window) However actors start and stop around the
+registration and the scan: an actor that registers once is named by at most TWO `Spawn` messages of
+the session (sent or still queued) — the scan and its own lifecycle event — and by at most ONE once
+the scan is over when it registers (every actor spawned later is advertised at most once; with
+`every_remotable_actor_is_advertised_by_the_sender`: exactly once while it lives). -/
+theorem an_actor_is_advertised_at_most_twice (pre post : List SenderAdvert.Op) (i : Nat)
+    (h1 : (pre ++ post).count (.start i) ≤ 1) :
+    let s := SenderAdvert.run {} (pre ++ post)
+    SenderAdvert.spawnCount i (s.wire ++ s.queue.map SenderAdvert.Evt.ctl) ≤ 2 ∧
+    ((SenderAdvert.run {} pre).scanned = true → pre.count (.start i) = 0 →
+      SenderAdvert.spawnCount i ((SenderAdvert.run {} pre).wire ++ (SenderAdvert.run {} pre).queue.map SenderAdvert.Evt.ctl) = 0 →
+      SenderAdvert.spawnCount i (s.wire ++ s.queue.map SenderAdvert.Evt.ctl) ≤ 1) := by
+  intro s
+  have hs : SenderAdvert.run (SenderAdvert.run {} pre) post = s := by
+    simp [s, SenderAdvert.run, List.foldl_append]
+  have ha : SenderAdvert.spawnCount i (s.wire ++ s.queue.map SenderAdvert.Evt.ctl) + SenderAdvert.un s.scanned ≤
+      0 + 1 + (pre ++ post).count (.start i) := SenderAdvert.spawnCount_run i (pre ++ post) {}
+  have hb : SenderAdvert.spawnCount i (s.wire ++ s.queue.map SenderAdvert.Evt.ctl) + SenderAdvert.un s.scanned ≤
+      SenderAdvert.spawnCount i ((SenderAdvert.run {} pre).wire ++ (SenderAdvert.run {} pre).queue.map SenderAdvert.Evt.ctl) +
+        SenderAdvert.un (SenderAdvert.run {} pre).scanned + post.count (.start i) := by
+    have := SenderAdvert.spawnCount_run i post (SenderAdvert.run {} pre)
+    rw [hs] at this
+    exact this
+  refine ⟨by omega, ?_⟩
+  intro hsc hc h0
+  rw [h0, hsc] at hb
+  have hu : SenderAdvert.un true = 0 := rfl
+  rw [hu] at hb
+  have : post.count (.start i) ≤ 1 := by
+    rw [List.count_append] at h1; omega
+  omega
+
 /-- "exactly once" does NOT hold on the wire: an actor that starts between the registration and
 the scan is advertised twice (harmless: `get_or_spawn_remote_actor` is idempotent — the theorem
 above is about the verdict of the stream); one that starts later is advertised once. -/
@@ -1201,6 +1233,7 @@ theorem extracted_payload_field_mapping :
 #print axioms C20.extracted_after_authenticated_order
 #print axioms C20.extracted_payload_field_mapping
 #print axioms C20.every_remotable_actor_is_advertised_by_the_sender
+#print axioms C20.an_actor_is_advertised_at_most_twice
 #print axioms C20.fields_reach_the_original_unchanged
 #print axioms C20.composed_wire_hands_each_frame_to_the_original_named_by_to
 #print axioms C20.composed_reply_goes_only_to_the_proxy_named_by_to
